@@ -18,6 +18,7 @@ import (
 	"sync"
 	"sync/atomic"
 	"time"
+	"verif/harness/internal/sparse"
 
 	"verif/harness/proto"
 )
@@ -619,10 +620,6 @@ func CopyTree(src, dst string) error {
 		if info.IsDir() {
 			return os.MkdirAll(target, 0755)
 		}
-		b, err := os.ReadFile(p)
-		if err != nil {
-			return err
-		}
-		return os.WriteFile(target, b, 0644)
+		return sparse.CopyFile(p, target)
 	})
 }
